@@ -355,7 +355,7 @@ fn run_inner(c: &Case, out: &mut Out) {
 }
 
 fn seed_state<A: Sx>(content: &[A], from_offset: usize) -> St<A> {
-    let real = if from_offset == 0 { build(content) } else { owned_from_offset(content, from_offset) };
+    let real = if from_offset == 0 { build(content) } else { owned_headed(content, from_offset) };
     St { real, model: content.to_vec() }
 }
 
